@@ -275,8 +275,12 @@ class Intervals:
                  'CallExpr', 'CXXMemberCallExpr', 'ArraySubscriptExpr'):
             # evaluate for side effects on env and to record subscripts — only at statement roots
             par = fn.parent(n)
+            # a root is an element whose parent is not itself evaluated as an element: statements, and the
+            # short-circuit operators (which are control flow, not CFG elements)
             if par is None or par['k'] in ('CompoundStmt', 'IfStmt', 'ForStmt', 'WhileStmt', 'DoStmt', 'SwitchStmt',
-                                           'CaseStmt', 'DefaultStmt', 'CXXForRangeStmt', 'LabelStmt'):
+                                           'CaseStmt', 'DefaultStmt', 'CXXForRangeStmt', 'LabelStmt') or \
+                    (par['k'] == 'BinaryOperator' and par.get('op') in ('&&', '||')) or \
+                    (par['i'] not in fn.cfg.pos and par['k'] not in ('DeclStmt', 'VarDecl', 'ReturnStmt')):
                 self.eval(fn, n, env, depth, site_itv)
             elif site_itv is not None and k == 'ArraySubscriptExpr' or \
                     (site_itv is not None and k == 'CXXOperatorCallExpr' and n.get('op') == '[]'):
@@ -318,8 +322,26 @@ class Intervals:
                     key = 'M:this.' + e['callee']['n']
                 elif o.get('ref', {}).get('k') in ('Parm', 'Local'):
                     key = 'M:%d.%s' % (o['ref']['id'], e['callee']['n'])
+        if key is None and e['k'] == 'CallExpr' and e.get('callee', {}).get('fid') in self.p.funcs:
+            g = self.p.funcs[e['callee']['fid']]
+            if g.d.get('constexpr') and g.name.startswith('engine::'):
+                ids = []
+                for a in kids(e)[1:]:
+                    t = strip_casts(a)
+                    if t is not None and t.get('ref', {}).get('k') in ('Local', 'Parm') and not kids(t):
+                        ids.append(t['ref']['id'])
+                    else:
+                        ids = None
+                        break
+                if ids:
+                    key = ('P', g.id) + tuple(ids)
         self._pk[(fn.id, e['i'])] = key
         return key
+
+    @staticmethod
+    def kill_local(env, vid):
+        for k_ in [k_ for k_ in env if isinstance(k_, tuple) and vid in k_[2:]]:
+            del env[k_]
 
     @staticmethod
     def kill_pure(env):
@@ -330,7 +352,7 @@ class Intervals:
         if e is None:
             return TOP
         k = e['k']
-        if k in ('MemberExpr', 'CXXMemberCallExpr'):
+        if k in ('MemberExpr', 'CXXMemberCallExpr', 'CallExpr'):
             pk = self.pure_key(fn, e)
             if pk is not None and pk in env:
                 return env[pk]
@@ -437,6 +459,7 @@ class Intervals:
                     self.eval(fn, a, env, depth, site_itv)
                 if t.get('ref', {}).get('k') in ('Local', 'Parm'):
                     env[t['ref']['id']] = self.wrap(v, t)
+                    self.kill_local(env, t['ref']['id'])
                 else:
                     self.kill_pure(env)
                 return v
@@ -587,6 +610,11 @@ class Intervals:
 
     def _apply_outs(self, args, ptypes, outs, env):
         """values of non-const reference parameters at the callee's exit flow back into the caller's locals"""
+        for a, pt in zip(args, ptypes):
+            if pt.endswith('&') and not pt.startswith('const '):
+                t = strip_casts(a)
+                if t is not None and t.get('ref', {}).get('k') in ('Local', 'Parm'):
+                    self.kill_local(env, t['ref']['id'])
         if not outs:
             return
         for a, pt, o in zip(args, ptypes, outs):
@@ -735,7 +763,8 @@ def _arith(op, a, b):
         if op == '|' or op == '^':
             if a[0] >= 0 and b[0] >= 0 and not math.isinf(a[1]) and not math.isinf(b[1]):
                 bits = max(int(a[1]).bit_length(), int(b[1]).bit_length())
-                return (0, (1 << bits) - 1)
+                # x|y <= x+y and x^y <= x+y for non-negative operands
+                return (0, min((1 << bits) - 1, int(a[1]) + int(b[1])))
             return TOP
         if op == '>>':
             if a[0] >= 0 and b[0] >= 0 and not math.isinf(b[0]):
